@@ -126,6 +126,27 @@ pub fn strftime(fmt: &str, c: &Civil, ts: u64) -> Option<String> {
             'F' => o.push_str(&format!("{}-{:02}-{:02}", c.year, c.month, c.day)),
             'T' => o.push_str(&format!("{:02}:{:02}:{:02}", c.hour, c.minute, c.second)),
             '%' => o.push('%'),
+            // the zone of every zerv date is UTC
+            'z' => o.push_str("+0000"),
+            ':' => {
+                if it.next()? != 'z' {
+                    return None;
+                }
+                o.push_str("+00:00");
+            }
+            'Z' => o.push_str("UTC"),
+            '+' => o.push_str(&format!("{}-{:02}-{:02}T{:02}:{:02}:{:02}+00:00", c.year, c.month, c.day, c.hour, c.minute, c.second)),
+            'e' => o.push_str(&format!("{:>2}", c.day)),
+            'k' => o.push_str(&format!("{:>2}", c.hour)),
+            'I' => o.push_str(&format!("{:02}", if c.hour % 12 == 0 { 12 } else { c.hour % 12 })),
+            'l' => o.push_str(&format!("{:>2}", if c.hour % 12 == 0 { 12 } else { c.hour % 12 })),
+            'p' => o.push_str(if c.hour < 12 { "AM" } else { "PM" }),
+            'A' => o.push_str(["Monday", "Tuesday", "Wednesday", "Thursday", "Friday", "Saturday", "Sunday"][c.weekday_mon0 as usize]),
+            'B' => o.push_str(["January", "February", "March", "April", "May", "June", "July", "August", "September", "October", "November", "December"][(c.month - 1) as usize]),
+            'h' => o.push_str(MON[(c.month - 1) as usize]),
+            'C' => o.push_str(&format!("{:02}", c.year.div_euclid(100))),
+            'R' => o.push_str(&format!("{:02}:{:02}", c.hour, c.minute)),
+            'D' => o.push_str(&format!("{:02}/{:02}/{:02}", c.month, c.day, c.year.rem_euclid(100))),
             _ => return None,
         }
     }
@@ -154,5 +175,7 @@ mod tests {
         assert_eq!(civil(1672531200).week_monday(), 0);
         assert_eq!(civil(1672531200 + 86400).week_monday(), 1);
         assert_eq!(pattern_value("compact_datetime", &civil(1710511845)).unwrap(), "20240315141045");
+        assert_eq!(strftime("%a %A %b %B %e %k %I %l %p %C %R %D %z %:z %Z", &civil(1710511845), 1710511845).unwrap(), "Fri Friday Mar March 15 14 02  2 PM 20 14:10 03/15/24 +0000 +00:00 UTC");
+        assert_eq!(strftime("%+", &civil(951782400 + 5), 951782405).unwrap(), "2000-02-29T00:00:05+00:00");
     }
 }
